@@ -47,7 +47,8 @@ def oracle(case):
         return None  # C08's business
     c = api.compiles(out)
     if c is not None:
-        return ('output-not-compilable',), {'out': out[:1200], 'error': c}
+        from ..oracle.scopecheck import norm_msg
+        return ('output-not-compilable', norm_msg(c)), {'out': out[:1200], 'error': c}
     try:
         a = canon.canon(api.parse(src), opts)
         b = canon.canon(api.parse(out), opts)
